@@ -211,7 +211,9 @@ def tree_choose(
         #   result's dtype tells us the final type.
         result = jnp.choose(idx, vs, mode="wrap")
         if isinstance(idx, int):
-            return jnp.asarray(vs[idx % len(vs)], dtype=result.dtype)
+            # same dtype AND shape as the traced arm (jnp.choose broadcasts the choices)
+            chosen = jnp.asarray(vs[idx % len(vs)], dtype=result.dtype)
+            return jnp.broadcast_to(chosen, result.shape)
         else:
             return result
 
